@@ -188,6 +188,19 @@ Definition ms_root : list member := [fm "d/a.txt" "A"; lm "d/up" ".."].
 Lemma link_to_root_refuted : pinned_loses ms_root (lit "d/up").
 Proof. unfold pinned_loses. splits; try reflexivity; [discriminate|]. eexists _, _. split; vm_compute; reflexivity. Qed.
 
+(* ---------- selectors that do not lie in the archive ---------- *)
+Lemma outside_delegates ms t c zname op sel chain :
+  inarchive zname sel = false -> vfs_op repaired ms t c zname op sel chain = (chain, c).
+Proof. intros H. unfold vfs_op. simpl. now rewrite H. Qed.
+
+(* pinned: len(archive name) characters are cut off any selector; "URL:ab" is as long as "/T.zip",
+   so it is taken for the archive root *)
+Lemma outside_cut_refuted :
+  exists ms t c, populate pinned ms = Ok (t, c) /\
+    inarchive (lit "/T.zip") (lit "URL:ab") = false /\
+    fst (vfs_op pinned ms t c (lit "/T.zip") VStat (lit "URL:ab") RExc) = RStatDir.
+Proof. exists [fm "a.txt" "A"]. eexists _, _. splits; vm_compute; reflexivity. Qed.
+
 (* ---------- non-vacuity ---------- *)
 Definition ms_example : list member :=
   [mkm (lit "docs/") (lit "docs/") KDir; fm "docs/a.txt" "alpha"; fm "b.txt" "beta";
